@@ -148,6 +148,17 @@ func (db *DB) Merge() error {
 		}
 	}
 
+	// 批处理在提交前的中途刷新会提前更新索引, 上面的重写可能因此丢弃了旧记录, 而未写入完成标识的批处理在重启时会被整体丢弃.
+	// 批处理在整个生命周期内持有 db.mu, 持锁写入 merge 完成标识, 保证此时不存在尚未提交的批处理
+	db.mu.Lock()
+	defer db.mu.Unlock()
+	// merge 期间写入的新记录使旧记录在重写时被丢弃, 这些新记录必须先于完成标识持久化, 否则断电后新旧记录同时丢失
+	if db.activeFile != nil {
+		if err := db.activeFile.Sync(); err != nil {
+			return err
+		}
+	}
+
 	// 在 merge 临时目录创建并打开 merge 完成标识文件
 	mergeFinishedFile, err := datafile.OpenFile(mergePath, 0,
 		datafile.MergeFinishedFileSuffix, db.options.FileIOType)
